@@ -1139,6 +1139,10 @@ pub fn install_panic_hook() {
                 .or_else(|| info.payload().downcast_ref::<&str>().map(|s| s.to_string()))
                 .unwrap_or_else(|| "<non-string panic payload>".into());
             let loc = info.location().map(|l| format!("{}:{}:{}", l.file(), l.line(), l.column())).unwrap_or_default();
+            if msg.contains("unsafe precondition") || msg.contains("unreachable_unchecked") || msg.contains("must never be reached") {
+                // the process is about to abort (std's unsafe-precondition checks): leave a trace for the driver
+                eprintln!("rbsim: non-unwinding panic in simulated thread (unsafe precondition): {} at {}", msg, loc);
+            }
             // recorded into the history by the thread's own unwind handler (the hook must not touch the
             // world lock: parked threads take it briefly on every wake-up)
             LAST_PANIC.with(|c| *c.borrow_mut() = Some((msg, loc)));
